@@ -94,6 +94,7 @@ type op struct {
 	Col   tcell.Color
 	Seed  int
 	Quiet bool
+	Late  bool // set: the caller's combining slice is reused only after the next Show
 }
 
 func (o op) String() string {
@@ -116,6 +117,8 @@ func (o op) String() string {
 		return fmt.Sprintf("WindowSize fails=%v", o.Lock)
 	case "writefault":
 		return fmt.Sprintf("next tty write fails after %d bytes", o.Seed)
+	case "reset-same":
+		return fmt.Sprintf("SetContent(%d,%d, what it holds)", o.X, o.Y)
 	case "suspend-resume":
 		return fmt.Sprintf("Suspend; window %dx%d (0 = unchanged, back=%v); Resume; Clear", o.W, o.H, o.Quiet)
 	}
@@ -214,8 +217,11 @@ func drawOps(t *rapid.T, maxW, maxH int, withResize bool) []op {
 	n := rapid.IntRange(1, 45).Draw(t, "nops")
 	var ops []op
 	for i := 0; i < n; i++ {
-		k := rapid.IntRange(0, 33).Draw(t, "op")
+		k := rapid.IntRange(0, 35).Draw(t, "op")
 		switch {
+		case k >= 34:
+			// store again exactly what the cell already holds
+			ops = append(ops, op{Kind: "reset-same", X: rapid.IntRange(0, maxW-1).Draw(t, "sx"), Y: rapid.IntRange(0, maxH-1).Draw(t, "sy")})
 		case k == 32 && withResize:
 			// the terminal is lent to another program and taken back
 			o := op{Kind: "suspend-resume"}
@@ -264,6 +270,7 @@ func drawOps(t *rapid.T, maxW, maxH int, withResize bool) []op {
 					o.Y = maxH - 1
 				}
 			}
+			o.Late = rapid.Bool().Draw(t, "latereuse")
 			if lm.Width(o.R) >= 1 && rapid.IntRange(0, 5).Draw(t, "hascomb") == 0 {
 				nc := rapid.IntRange(1, 3).Draw(t, "ncomb")
 				for j := 0; j < nc; j++ {
@@ -332,10 +339,11 @@ type dw struct {
 	lastLocked   []bool
 	dirtyHist    bool // a Sync, resize, corruption or default-style change since the previous Show
 	corrupted    bool
-	lost         bool // a tty write failed: the terminal missed (part of) a frame
-	writeFault   bool // a write fault fired since the last Show/Sync was judged
-	racing       bool // a non-quiet resize happened: fidelity is suspended until the final repaint
-	libWrites    int  // writes by the library's own goroutines since the last Show
+	scratches    [][]rune // combining slices passed to SetContent, reused after the next Show
+	lost         bool     // a tty write failed: the terminal missed (part of) a frame
+	writeFault   bool     // a write fault fired since the last Show/Sync was judged
+	racing       bool     // a non-quiet resize happened: fidelity is suspended until the final repaint
+	libWrites    int      // writes by the library's own goroutines since the last Show
 	showsChecked int
 	blocks       [][]byte
 	curBlock     []byte
@@ -838,10 +846,21 @@ func (w *dw) appActor() {
 			// application reuses afterwards: the screen must have copied it
 			scratch := append([]rune(nil), o.Comb...)
 			sc.SetContent(o.X, o.Y, o.R, scratch, o.St.Build())
-			for i := range scratch {
-				scratch[i] = 0x1b
+			if o.Late {
+				w.scratches = append(w.scratches, scratch)
+			} else {
+				for i := range scratch {
+					scratch[i] = 0x1b
+				}
 			}
 			w.M.SetContent(o.X, o.Y, o.R, o.Comb, o.St)
+		case "reset-same":
+			if w.M.In(o.X, o.Y) {
+				if c := w.M.At(o.X, o.Y); !c.Unknown && !c.StyleUncon {
+					sc.SetContent(o.X, o.Y, c.R, append([]rune(nil), c.Comb...), c.St.Build())
+					w.M.SetContent(o.X, o.Y, c.R, c.Comb, c.St)
+				}
+			}
 		case "fill":
 			sc.Fill(o.R, o.St.Build())
 			w.M.Fill(o.R, o.St)
@@ -915,6 +934,18 @@ func (w *dw) appActor() {
 			w.block++
 			sc.Show()
 			w.afterShow("Show")
+			// the application now reuses the slices it passed before this Show
+			// (for other, perfectly valid, combining marks)
+			for _, sl := range w.scratches {
+				for i := range sl {
+					if sl[i] == 0x0323 {
+						sl[i] = 0x0308
+					} else {
+						sl[i] = 0x0323
+					}
+				}
+			}
+			w.scratches = w.scratches[:0]
 		case "sync":
 			w.block++
 			sc.Sync()
